@@ -459,7 +459,9 @@ pub fn histories(tier: &Tier) -> Result<Vec<History>, String> {
     // linear growth past the pruning horizon and the rebroadcast edge
     let stems: Vec<usize> = if tier.thorough { vec![3, 8, 10] } else { vec![8] };
     for stem in stems {
-        let n_tree = if tier.thorough { 3 } else { 2 };
+        // three further blocks: the smallest trees with a reorganisation onto a branch whose first
+        // block arrived while that branch was behind
+        let n_tree = 3;
         for sz in 0..=n_tree {
             for shape in shapes(sz) {
                 let tw = build_tree(g, stem, &shape, None)?;
